@@ -12,7 +12,12 @@ VARIABLES r, i, st
 vars == <<r, i, st>>
 
 Init == r = 1 /\ i = 1 /\ st = IF Len(Runs) >= 1 THEN InitAbs(Idx, Runs[1].ty) ELSE [val |-> <<>>, unk |-> <<>>, bad |-> "", detail |-> ""]
+\* what the library does today, noted when it changes (a note, never a verdict): a document that from_dict rejects has been
+\* converted completely before the first field is assigned, so the receiving object is as it was
+RejectedDocLeftATrace(e) ==
+  e.op = "fromdict_bad" /\ e.obs.err = "" /\ ~SameVal(NormMsg(e.obs.val), st.val)
 Advance == /\ r <= Len(Runs) /\ i <= Len(Runs[r].log) /\ st.bad = ""
+           /\ LET e == Runs[r].log[i] IN ~RejectedDocLeftATrace(e) \/ PrintT(<<"D", Runs[r].id, "a rejected from_dict changed the receiving object">>)
            /\ st' = Step(Idx, Runs[r].ty, st, Runs[r].log[i], JudgeLen)
            /\ i' = i + 1 /\ r' = r
 Finish == /\ r <= Len(Runs) /\ (i > Len(Runs[r].log) \/ st.bad # "")
